@@ -28,6 +28,9 @@ def build_arrays(spec):
             r = np.asarray(L['r_fracs'], dtype=float) * R       # explicit slices (fractions of R), last one = top
         elif i == 0:
             r = np.linspace(prev, top, n)
+        elif float(spec.get('iface_eps', 0.0)) > 0.0:
+            # the interface is sampled on both sides: the upper layer's first slice sits a relative eps above it
+            r = np.linspace(prev * (1.0 + float(spec['iface_eps'])), top, n)
         else:
             r = np.linspace(prev, top, n + 1)[1:]
         r_parts.append(r)
@@ -185,6 +188,7 @@ def spec_from_case(case):
     if case['method'] == 'RK23':
         rtol = max(rtol, 1e-7)
     return {'R': R, 'r0_frac': r0, 'l': int(case['l']), 'frequency': 10.0 ** case['logfreq'], 'layers': layers,
+            'iface_eps': float(case.get('iface_eps', 0.0) or 0.0),
             'opts': {'use_kamata': fam == 'kamata', 'method': case['method'], 'rtol': rtol, 'atol': rtol * 1e-4,
                      'nondim': bool(case['nondim']), 'solve_for': list(case['solve_for'])}}
 
